@@ -23,6 +23,12 @@ func Parse(in string) (sections []*Section, err error) {
 	parser.AddErrorListener(errorListener)
 	parser.BuildParseTrees = true
 	tree := parser.Start()
+	// Do not walk a parse tree that contains syntax errors: error recovery leaves
+	// error nodes and missing children in it, and the walker relies on positional
+	// child access and type assertions that only hold for well-formed trees.
+	if errorListener.ErrorBuilder.Len() != 0 {
+		return nil, fmt.Errorf("%v", errorListener.ErrorBuilder.String())
+	}
 
 	walker := NewWalker(parser)
 	antlr.ParseTreeWalkerDefault.Walk(walker, tree)
